@@ -609,6 +609,7 @@ func (o *CompiledFunction) Copy() Object {
 		NumParameters: o.NumParameters,
 		VarArgs:       o.VarArgs,
 		Free:          append([]*ObjectPtr{}, o.Free...), // DO NOT Copy() of elements; these are variable pointers
+		SourceMap:     o.SourceMap,                       // read-only after compilation: shared
 	}
 }
 
